@@ -61,8 +61,11 @@ Expect ==
                ELSE IF Case.ne >= 0 /\ (Case.ne # Len(evx) \/ Case.nd # Len(Docs(x))) THEN "event-count"
                ELSE ""
       yvalid == m.t = "none" \/ (m.t = "cut" /\ MValid(y))
+      \* "a byte order mark followed by no document" is left open (JsonText!Unsettled): not judged
+      open == y # <<>> /\ y[1] = 239 /\ JV!GWs(y, JV!GBom(y)) > Len(y)
       pt == Partial(evx, m)
   IN IF drift # "" THEN [drift |-> drift]
+     ELSE IF open THEN [drift |-> "", skip |-> TRUE]
      ELSE IF yvalid THEN [drift |-> "", valid |-> TRUE, extra |-> "none", top |-> FALSE,
                           ev |-> IF m.t = "none" THEN evx ELSE EventTokens(y), docs |-> Docs(y)]
      ELSE [drift |-> "", valid |-> FALSE, top |-> OpenAt(evx, m) = 0,
@@ -83,7 +86,7 @@ NextObs(j, c2) ==
 TCaseStart == /\ cse <= N /\ ob = 0
               /\ LET ex == Expect IN
                  IF ex.drift # "" THEN NextCase(Dev("generator-drift", ex.drift), cnt)
-                 ELSE IF Case.obs = <<>> THEN NextCase(<<>>, cnt)
+                 ELSE IF Case.obs = <<>> \/ "skip" \in DOMAIN ex THEN NextCase(<<>>, cnt)
                  ELSE /\ exp' = ex /\ ob' = 1 /\ Reset /\ UNCHANGED <<cse, bad>>
                       /\ cnt' = [cnt EXCEPT !.valid_cases = @ + (IF ex.valid THEN 1 ELSE 0),
                                             !.cut_cases = @ + (IF Case.m.t = "cut" THEN 1 ELSE 0),
